@@ -155,6 +155,18 @@ func (s *gatedStore) park(op int, key string) {
 // first key seen per gate-op code (gen: the key families the activation / revocation touch)
 var seenKeys = map[int]string{}
 
+// noteTTL records the lifetime the real call asked for, for the gate op just performed
+func (s *gatedStore) noteTTL(ttl time.Duration) {
+	if len(s.trace) == 0 {
+		return
+	}
+	s.mu.Lock()
+	if _, ok := seenTTL[s.trace[len(s.trace)-1]]; !ok {
+		seenTTL[s.trace[len(s.trace)-1]] = ttl
+	}
+	s.mu.Unlock()
+}
+
 func (s *gatedStore) forwardFault() bool {
 	k := s.writes
 	s.writes++
@@ -205,6 +217,7 @@ func (s *gatedStore) Set(key string, value any, ttl time.Duration) error {
 	default:
 		s.park(opOther, key)
 	}
+	s.noteTTL(ttl)
 	if s.forwardFault() {
 		return errInjected
 	}
@@ -241,6 +254,14 @@ func (s *gatedStore) SetNX(key string, value any, ttl time.Duration) (bool, erro
 		s.park(opAdmit, key)
 	} else {
 		s.park(opOther, key)
+	}
+	s.noteTTL(ttl)
+	if strings.HasPrefix(key, claimPrefix) {
+		s.mu.Lock()
+		if claimTTL == 0 && !curExpiresAt.IsZero() {
+			claimTTL, claimRemaining = ttl, time.Until(curExpiresAt)
+		}
+		s.mu.Unlock()
 	}
 	if s.forwardFault() {
 		return false, errInjected
@@ -464,13 +485,76 @@ func (r *routerStore) GetList(key string) ([]any, error)      { return r.pick().
 func (r *routerStore) AppendToList(key string, v any) error   { return r.pick().AppendToList(key, v) }
 func (r *routerStore) RemoveFromList(key string, v any) error { return r.pick().RemoveFromList(key, v) }
 
+// clockStore is the one store (or the cluster's shared cache) with a LOGICAL clock for key lifetimes: Set/SetNX record
+// deadline = logical now + ttl; advance(d) moves the clock and removes every key whose lifetime has run out (claim
+// markers, admission markers, code records, ...).  The callers' own time.Now() is not moved, so stalls are kept well
+// inside the code's activation window (the end of the window itself is exercised by the real-time "tick").
+type clockStore struct {
+	*memory.Storage
+	mu       sync.Mutex
+	now      time.Duration
+	deadline map[string]time.Duration
+}
+
+func newClockStore(ctx context.Context) *clockStore {
+	return &clockStore{Storage: memory.New(ctx), deadline: map[string]time.Duration{}}
+}
+func (c *clockStore) note(key string, ttl time.Duration) {
+	c.mu.Lock()
+	if ttl > 0 {
+		c.deadline[key] = c.now + ttl
+	} else {
+		delete(c.deadline, key)
+	}
+	c.mu.Unlock()
+}
+func (c *clockStore) Set(key string, v any, ttl time.Duration) error {
+	err := c.Storage.Set(key, v, ttl)
+	if err == nil {
+		c.note(key, ttl)
+	}
+	return err
+}
+func (c *clockStore) SetNX(key string, v any, ttl time.Duration) (bool, error) {
+	ok, err := c.Storage.SetNX(key, v, ttl)
+	if ok && err == nil {
+		c.note(key, ttl)
+	}
+	return ok, err
+}
+func (c *clockStore) Delete(key string) error {
+	c.note(key, 0)
+	return c.Storage.Delete(key)
+}
+func (c *clockStore) advance(d time.Duration) {
+	c.mu.Lock()
+	c.now += d
+	var gone []string
+	for k, dl := range c.deadline {
+		if dl <= c.now {
+			gone = append(gone, k)
+			delete(c.deadline, k)
+		}
+	}
+	c.mu.Unlock()
+	for _, k := range gone {
+		c.Storage.Delete(k)
+	}
+}
+
+// lifetimes the real calls ask for, per gate-op code (gen: regenerated table) + the claim's lifetime against the code's
+// remaining activation window at the moment of the claim
+var seenTTL = map[int]time.Duration{}
+var claimTTL, claimRemaining time.Duration
+var curExpiresAt time.Time
+
 // view = what an observer of the cluster sees: a fresh node (empty local cache) for point reads, the shared cache for scans
 type view struct {
 	node fullStore
-	scan *memory.Storage
+	scan *clockStore
 }
 
-func newNode(ctx context.Context, shared *memory.Storage) fullStore {
+func newNode(ctx context.Context, shared *clockStore) fullStore {
 	return hybrid.NewWithSharedCache(ctx, memory.New(ctx), shared, nil, hybrid.DefaultConfig())
 }
 
@@ -532,7 +616,7 @@ func runSched(c caseIn) *caseOut {
 	probeKeys()
 	ctx, cancel := context.WithCancel(context.Background())
 	defer cancel()
-	base := memory.New(ctx) // the one store (single world) or the shared cache (cluster world)
+	base := newClockStore(ctx) // the one store (single world) or the shared cache (cluster world)
 	cluster := c.World == "cluster"
 	var raw fullStore = base // store of the setup node / of the observer
 	obs := view{node: base, scan: base}
@@ -541,6 +625,11 @@ func runSched(c caseIn) *caseOut {
 		obs = view{node: newNode(ctx, base), scan: base}
 	}
 	n := len(c.Threads)
+	pseudo := make([]bool, n) // "tick" (real expiry) and "stall" (the store's logical clock advances) are not callers
+	stalled := make([]bool, n)
+	for i, t := range c.Threads {
+		pseudo[i] = t.Kind == "tick" || t.Kind == "stall"
+	}
 	tickIdx := -1
 	for i, t := range c.Threads {
 		if t.Kind == "tick" {
@@ -652,7 +741,7 @@ func runSched(c caseIn) *caseOut {
 		done[i] = make(chan struct{})
 	}
 	for i, t := range c.Threads {
-		if t.Kind == "tick" {
+		if pseudo[i] {
 			continue
 		}
 		var nodeStore fullStore = base
@@ -709,17 +798,20 @@ func runSched(c caseIn) *caseOut {
 	positions := make([][]int, n)
 	for i := 0; i < n; i++ {
 		first[i], doneAt[i] = -1, -1
-		if i == tickIdx || shared {
+		if pseudo[i] || shared {
 			continue
 		}
 		settle(i)
 	}
 	early := append([]bool(nil), finished...) // rejected on its parameters before any storage call
 	expiresAt := cc.ActivationExpiresAt
+	mu.Lock()
+	curExpiresAt = expiresAt
+	mu.Unlock()
 	var preDur, postDur time.Duration
 	tTick := time.Time{}
 	stepOne := func(i int) {
-		if shared && i >= 0 && i < n && i != tickIdx {
+		if shared && i >= 0 && i < n && !pseudo[i] {
 			poll()
 			if waiting[i] {
 				out.Skipped++
@@ -728,6 +820,13 @@ func runSched(c caseIn) *caseOut {
 		}
 		pos := len(out.Sched)
 		out.Sched = append(out.Sched, i)
+		if i >= 0 && i < n && c.Threads[i].Kind == "stall" {
+			if !stalled[i] {
+				stalled[i] = true
+				base.advance(time.Duration(c.Threads[i].Listen) * time.Second)
+			}
+			return
+		}
 		if i == tickIdx {
 			if !out.Ticked {
 				out.Ticked = true
@@ -759,14 +858,14 @@ func runSched(c caseIn) *caseOut {
 	for { // completion: run every caller to the end, in index order; blocked callers are picked up when they move
 		progress := false
 		for i := 0; i < n; i++ {
-			for i != tickIdx && !finished[i] && !waiting[i] {
+			for !pseudo[i] && !finished[i] && !waiting[i] {
 				stepOne(i)
 				progress = true
 			}
 		}
 		left := false
 		for i := 0; i < n; i++ {
-			if i != tickIdx && !finished[i] {
+			if !pseudo[i] && !finished[i] {
 				left = true
 			}
 		}
@@ -779,13 +878,13 @@ func runSched(c caseIn) *caseOut {
 				poll()
 				moved := false
 				for i := 0; i < n; i++ {
-					if i != tickIdx && !finished[i] && !waiting[i] {
+					if !pseudo[i] && !finished[i] && !waiting[i] {
 						moved = true
 					}
 				}
 				allDone := true
 				for i := 0; i < n; i++ {
-					if i != tickIdx && !finished[i] {
+					if !pseudo[i] && !finished[i] {
 						allDone = false
 					}
 				}
@@ -804,7 +903,7 @@ func runSched(c caseIn) *caseOut {
 		}
 	}
 	for i := 0; i < n; i++ { // a caller that returned without ever touching the store returned "at the end"
-		if i != tickIdx && finished[i] && doneAt[i] < 0 && !early[i] {
+		if !pseudo[i] && finished[i] && doneAt[i] < 0 && !early[i] {
 			doneAt[i] = len(out.Sched) - 1 // returned while blocked outside the store: "at the end"
 		}
 	}
@@ -927,6 +1026,13 @@ func runSched(c caseIn) *caseOut {
 		if t.Kind == "tick" {
 			to.Res = 0
 			if out.Ticked {
+				to.Res = 100
+			}
+			out.Threads = append(out.Threads, to)
+			continue
+		}
+		if t.Kind == "stall" {
+			if stalled[i] {
 				to.Res = 100
 			}
 			out.Threads = append(out.Threads, to)
@@ -1148,7 +1254,7 @@ func gen() {
 	// (0 runtime = node-local cache only, 1 persistent, 2 shared, 3 shared+persistent), keyed by gate-op code
 	ctx, cancel := context.WithCancel(context.Background())
 	defer cancel()
-	hs := newNode(ctx, memory.New(ctx)).(*hybrid.Storage)
+	hs := newNode(ctx, newClockStore(ctx)).(*hybrid.Storage)
 	var ops []int
 	for op := range seenKeys {
 		ops = append(ops, op)
@@ -1166,6 +1272,20 @@ func gen() {
 		fmt.Printf("(* op %d: %s *)\n", op, fam)
 	}
 	fmt.Printf("Definition key_categories : list (nat * nat) := [%s].\n", strings.Join(kc, "; "))
+	// lifetimes (whole seconds, rounded) the real calls ask for, per gate-op code, on a fresh 10-minute code; 0 = no expiry
+	var tops []int
+	for op := range seenTTL {
+		tops = append(tops, op)
+	}
+	sort.Ints(tops)
+	var kt []string
+	for _, op := range tops {
+		kt = append(kt, fmt.Sprintf("(%d, %d%%N)", op, int64((seenTTL[op]+500*time.Millisecond)/time.Second)))
+	}
+	fmt.Printf("Definition key_ttl_s : list (nat * N) := [%s].\n", strings.Join(kt, "; "))
+	fmt.Printf("Definition code_window_s : N := %d%%N.\n", 600)
+	// the claim marker must outlive the code's remaining activation window (measured when the SetNX arrives)
+	fmt.Printf("Definition claim_lifetime_covers_window : bool := %v.\n", claimTTL > 0 && claimTTL >= claimRemaining)
 }
 
 func main() {
